@@ -125,4 +125,15 @@ ShownMatches(shown, filebytes, big) == IF big THEN shown = filebytes ELSE shown 
 MapEntryJustified(m, emits) ==
   \E i \in 1..Len(emits) : emits[i].seg = m.seg /\ emits[i].line = m.line /\ emits[i].addr = m.addr
 
+------------------------------------------------------------------------------------------------------
+(* share file (asmallg.c CodeSHARED + IntLine): one definition per shared symbol, in the syntax of the   *)
+(* consumer.  A share line is judged as (kind, name, number format, value):                             *)
+(*    C          #define NAME 0x<hex>          (eIntConstModeC)                                          *)
+(*    Pascal     NAME = $<hex>;                (eIntConstModeMoto)                                       *)
+(*    assembler  NAME equ|set <number in the target's own integer syntax>                                *)
+ShareFormats(src) == CASE src = "share-c"   -> {"0x"}
+                       [] src = "share-pas" -> {"$"}
+                       [] src = "share-asm" -> {"0x", "$", "h", "x'"}
+                       [] OTHER             -> {""}
+
 ===============================================================================
